@@ -102,6 +102,9 @@ def gen_case(rng, cid):
             # an effective date in the header: postings and the transaction's own rates stay dated by the transaction date
             d += "=" + (BASE + datetime.timedelta(days=o + rng.choice([-9, -2, 2, 9, 30]))).strftime("%Y/%m/%d")
         txns.append("%s txn %d\n%s" % (d, i, body))
+    if rng.random() < 0.3:
+        # a file that is not in date order (a late-entered bill): date ranges select by date, wherever the transaction stands
+        rng.shuffle(txns)
     # price db: star around the first commodity plus random extra lines, dated around the transactions; sometimes sparse
     db, pdb = [], []
     density = rng.choice([0.0, 0.5, 1.0, 1.0, 1.5])
